@@ -108,6 +108,11 @@ def run(ck, prop, stream, families_note, variants=None, judge=None, theorems=Non
             ck.notes.append(f"finding {k['id']}: pinned witness no longer fails")
     # 2. the stream
     os.environ["VERIF_TIER"] = ck.tier   # the driver evaluates Model.Mvp60 for parallelism 1..4 in the thorough tier, 1..2 otherwise
+    if ck.tier == "thorough" and prop not in ("C03", "C04"):
+        # the multi-core models (MVP-7.0/7.1/8) serialise every cache miss: on the memory-heavy streams they are evaluated
+        # with two cores only (C03 and C04 evaluate them with 1..4 cores), so that the thorough tier stays within minutes
+        for v in ("VERIF_M70", "VERIF_M71", "VERIF_M80"):
+            os.environ.setdefault(v, "p2")
     ins, go, lean = ck.run_stream(stream)
     per = Counter()
     tie_bad = []
